@@ -70,7 +70,7 @@ for e in ("explore_prefix", "explore_segment", "nearest_unknown", "nearest_right
     MATRIX[("F", e, "nibbles")] = list(NIB_BAD)
 
 CELLS = sorted((s, e, a, b) for (s, e, a), bs in MATRIX.items() for b in bs)
-PROBES = [f"{s}:{e}:{a}:{b}" for s, e, a, b in CELLS] + ["bad-call-inside-open-batch", "bad-call-on-pruning-handle", "twin-compared"]
+PROBES = [f"{s}:{e}:{a}:{b}" for s, e, a, b in CELLS] + ["bad-call-inside-open-batch", "bad-call-on-pruning-handle", "bad-call-from-inside-another-call", "twin-compared"]
 FAULTS = ["bad-request", "batch-abort", "batch-abort-base", "crash-reopen", "restart-regenerated-counts"]
 RULE = (
     f"each run: one of the scenarios H (HexaryTrie, prune on/off, batches), B (BinaryTrie + branch helpers), S "
@@ -166,10 +166,58 @@ class HW(BadMixin, HWorld):
     def __init__(self, cfg, st):
         HWorld.__init__(self, cfg, st, oracles=())
 
-    def mutation_raised(self, h, cmd, exc):
+    def commit_raised(self, h, cmd, exc):
         return "exc:" + type(exc).__name__
 
-    def commit_raised(self, h, cmd, exc):
+    # -- a refused call issued from inside another call (a callback of the db object) -------
+    def arm(self, cmd):
+        re = cmd.get("reent")
+        if re:
+            self._re = dict(re)
+            self._re_left = int(re["at"])
+            self._re_target = None
+            self.db.on_access = self._on_access
+        super().arm(cmd)
+
+    def disarm(self):
+        self.db.on_access = None
+        return super().disarm()
+
+    def pre_mutation(self, h, cmd, trie):
+        self._re_trie = trie
+
+    def _on_access(self, kind, key):
+        self._re_left -= 1
+        if self._re_left != 0:
+            return
+        re = self._re
+        t = self._re_trie
+        x = make_bad(re["bad"], b"\x01\x02")
+        fn = {
+            "set": lambda: t.set(x, b"v"),
+            "setitem": lambda: t.__setitem__(x, b"v"),
+            "delete": lambda: t.delete(x),
+            "delitem": lambda: t.__delitem__(x),
+            "get": lambda: t.get(x),
+            "exists": lambda: t.exists(x),
+        }[re["entry"]]
+        try:
+            res = fn()
+        except BaseException as e:
+            exc = e
+        else:
+            self.viol("accepted", f"H re-entrant {re['entry']}(key={re['bad']}) during another operation was accepted")
+        if type(exc) is not ValidationError:
+            self.viol("wrong-exception-type", f"H re-entrant {re['entry']}(key={re['bad']}) during another operation raised {exc!r}, expected ValidationError")
+        self.st.probe("bad-call-from-inside-another-call")
+        self.st.fault("bad-request")
+        self.st.execs += 1
+        self.n_bad = getattr(self, "n_bad", 0) + 1
+        self.fired.append("reentrant-refused")
+
+    def mutation_raised(self, h, cmd, exc):
+        if cmd.get("reent") and "reentrant-refused" in self.fired:
+            self.viol("later-divergence", f"a valid {cmd['op']} failed with {exc!r} because a refused call was made while it was in progress")
         return "exc:" + type(exc).__name__
 
     def op_bad(self, h, cmd):
@@ -415,9 +463,9 @@ def execute(case, st):
         return
     cmds = case["cmds"]
     keep = [i for i, c in enumerate(cmds) if c["op"] != "bad"]
-    if len(keep) == len(cmds):
+    if len(keep) == len(cmds) and not any("reent" in c for c in cmds):
         return w
-    twin_case = {"scen": case["scen"], "cfg": case["cfg"], "cmds": [cmds[i] for i in keep]}
+    twin_case = {"scen": case["scen"], "cfg": case["cfg"], "cmds": [{k: v for k, v in cmds[i].items() if k != "reent"} for i in keep]}
     tw = _run(twin_case, Stats())
     if tw is None:
         return w
@@ -485,6 +533,9 @@ def generate(rng):
             return bad_cmd(rng, "H", pool, values, {"on": "batch" if depth and rng.random() < 0.8 else "live"})
 
         insert_bad(rng, cmds, make)
+        for c in cmds:
+            if c["op"] in ("set", "del", "sete") and rng.random() < 0.12:
+                c["reent"] = {"at": rng.randint(1, 6), "entry": rng.choice(["set", "setitem", "delete", "delitem", "get", "exists"]), "bad": rng.choice(BYTES_BAD)}
         cmds.append({"op": "readback"})
         cfg = {"prune": rng.random() < 0.5, "cache": rng.choice([0, 2, 4096]), "probe": [hx(k) for k in probes[:20]]}
     elif scen == "B":
